@@ -67,6 +67,8 @@ def check_C14(tier):
         env = dict(DIV_MAXN=4 if tier == "quick" else 5, DIV_MAXD=40 if tier == "quick" else 60,
                    DIV_LARGE_N=20000 if tier == "quick" else 400000)
         rc, out = record(binary, "TestRecordDividers|TestLargeDividers", sc, env)
+        if "RECORDED div_calls=" not in out:   # a recorder that died half-way (e.g. a panicking divider) must not pass for a short recording
+            raise Inconclusive("divider recorder did not finish\n" + out[-3000:])
         calls = os.path.join(sc, "div_calls.ndjson")
         res, viol, drift = tlc_calls(sc, "PureDiv", "i", v, ("C14",))
         n = res.distinct
@@ -119,7 +121,9 @@ def run_utils(tier, v, sc, prefixes):
     stage_specs(sc)
     binary = os.path.join(sc, "pure.test")
     build_test("pure", binary, race=False)
-    record(binary, "TestRecordUtils$|TestRecordCtor$", sc, utils_env(tier))
+    rc_u, out_u = record(binary, "TestRecordUtils$|TestRecordCtor$", sc, utils_env(tier))
+    if "RECORDED utils_calls=" not in out_u or "constructor calls" not in out_u:   # every recorder of the binary must have finished
+        raise Inconclusive("utils / constructor recorder did not finish\n" + out_u[-3000:])
     calls = os.path.join(sc, "utils_calls.ndjson")
     res, viol, drift = tlc_calls(sc, "PureUtils", "i", v, prefixes, timeout=3000)
     # constructors of every discipline against PureCtor.tla: conformance only (no listed property is about option validation)
